@@ -423,9 +423,28 @@ def sset_cases(E, ctx):
     V = ops.seq_term_as(ctx.value, "int")
     unit_mode = hasattr(ctx, "outcome")
 
+    def chain_clauses(ret, new_root):
+        """the returned hashes are the new path hashes root to leaf: each is the child, on the key's path, of the one
+        before it (the first: of the new root), and the last is the hash of the value (stated at the ghost position GI)"""
+        rt = ops.seq_term(ret)
+        pu = E.ghost.get("sset_updates")
+        if pu is not None:
+            # tuple(reversed(proof_update)) at the three positions the clause looks at (the engine's own fact about
+            # reversal, instantiated)
+            for idx in (GI, GI + 1, z3.IntVal(0), D - 1):
+                E.assume(mk_bool(z3.Implies(z3.And(idx >= 0, idx < D), rt[idx] == pu[D - 1 - idx])))
+
+        def on_path_child(h, bit):
+            return z3.If(testbit(p, bit), R(h), L(h))
+        return [("returned/first-is-the-child-of-the-new-root", mk_bool(on_path_child(new_root, D - 1) == rt[0])),
+                ("returned/each-is-the-child-of-its-predecessor",
+                 mk_bool(z3.Implies(z3.And(GI >= 0, GI + 1 < D), on_path_child(rt[GI], D - 2 - GI) == rt[GI + 1]))),
+                ("returned/last-is-the-hash-of-the-value", mk_bool(rt[D - 1] == specfn.keccak(V)))]
+
     def clauses(ret):
         new_root = ops.seq_term_as(s.fields["root_hash"], "int")
-        return [("view", mk_bool(dn(new_root, D, QP) == z3.If(agree(p, QP, D), specfn.keccak(V), dn(root, D, QP)))),
+        extra = chain_clauses(ret, new_root) if unit_mode else []
+        return extra + [("view", mk_bool(dn(new_root, D, QP) == z3.If(agree(p, QP, D), specfn.keccak(V), dn(root, D, QP)))),
                 ("one-hash-per-level-is-returned", mk_bool(z3.Length(ops.seq_term(ret)) == D)),
                 ("new-root-is-stored", mk_bool(z3.Select(db.has, new_root))),
                 ("tree-stays-well-formed", mk_bool(z3.And(wfh(new_root, D), z3.Length(new_root) == 32))),
@@ -472,7 +491,20 @@ def sset_inv(E, fr, i):
     db = s.fields["db"]
     pu = fr.locals["proof_update"]
     n_pu = z3.Length(pu.seq.t) if pu.seq is not None else z3.IntVal(len(pu.items))
-    return [("target-bit", eq),
+    put = pu.seq.t if pu.seq is not None else (ops.seq_term(tuple(pu.items)) if pu.items else z3.Empty(SeqSeqI))
+    E.ghost["sset_updates"] = put
+
+    def on_path_child(h, bit):
+        return z3.If(testbit(p, bit), R(h), L(h))
+    chain = [("updates/first-is-the-hash-of-the-value", mk_bool(z3.Implies(it >= 1, put[0] == specfn.keccak(V)))),
+             # stated at the arbitrary position J = D - 2 - GI (the position the postcondition looks at, counted from
+             # the other end: the returned tuple is the reversed list)
+             ("updates/each-is-the-child-of-its-successor",
+              mk_bool(z3.Implies(z3.And(D - 2 - GI >= 0, D - 2 - GI + 1 < it),
+                                 on_path_child(put[D - 2 - GI + 1], D - 2 - GI) == put[D - 2 - GI]))),
+             ("updates/last-is-the-child-of-the-node-being-built",
+              mk_bool(z3.Implies(it >= 1, on_path_child(H, it - 1) == put[it - 1])))]
+    return chain + [("target-bit", eq),
             ("one-hash-per-level-so-far", mk_bool(n_pu == it)),
             ("an-inner-node-is-a-pair-of-hashes", mk_bool(z3.Implies(it >= 1, z3.Length(nt) == 64))),
             ("view", mk_bool(dn(H, it, QP) == z3.If(agree(p, QP, it), specfn.keccak(V), dn(old, it, QP)))),
